@@ -2,6 +2,7 @@ import Driver.Util
 import Driver.Vec
 import Driver.Queue
 import Driver.PubSub
+import Driver.EventSeq
 import Driver.ResizeMem
 import Driver.Channel
 import Driver.Lifecycle
@@ -49,6 +50,7 @@ def components : List (String × Comp) := [
   ("vec", VecD.comp),
   ("queue", QueueD.comp),
   ("pubsub", PubSubD.comp),
+  ("eventseq", EventSeqD.comp),
   ("resize", ResizeMemD.comp),
   ("zcc", ChannelD.comp),
   ("lifecycle", LifecycleD.comp),
